@@ -24,6 +24,7 @@ def run(cx, chk):
     chk.rule("C20.R1w", "all-writers: used / key_costs are written only inside SampledLFU methods")
     chk.rule("C20.R2", "room_left returns max_cost.load() - (used + cost)")
     chk.rule("C20.R3", "update*/remove* report exactly whether the key was tracked (and its recorded cost)")
+    chk.rule("C20.R5", "fill_sample: unchanged when already long enough; otherwise only pushes (key, cost) pairs read from key_costs, re-testing len >= samples after every push")
     chk.rule("C20.R4", "increment/update/remove delegate to the *_hashed_key twin with hash_key(k)")
     for cfg, F in cx.cfgs():
         methods = [f for f in F.doc["fns"] if f["kind"] == "AssocFn" and (F.impl_of(f) or {}).get("self_head") == ADT]
@@ -50,6 +51,7 @@ def run(cx, chk):
         room_left(cx, chk, cfg, F)
         reports(cx, chk, cfg, F)
         siblings(cx, chk, cfg, F)
+        fill_sample(cx, chk, cfg, F)
 
 
 def self_field(loc, name):
@@ -217,3 +219,57 @@ def siblings(cx, chk, cfg, F):
                 chk.ob("C20.R4", "%s:%s" % (cfg, name), "delegates to %s(hash_key(k), ..)" % twin.split("::")[-1])
             else:
                 chk.violation("C20.R4", name, "%s does not delegate to %s with hash_key(key)" % (name, twin), f["span"]["file"], f["span"]["lo"], f["q"], None, cfg)
+
+
+def fill_sample(cx, chk, cfg, F):
+    f = F.find(ADT + "::fill_sample")
+    PAIRS = ("ref", ("L", 0, 2, ()))
+    SAMPLES = ("load", ("H", ("param", 1, True), ("samples",)), 0)
+    ok = True
+
+    def bad(what, msg, ln=None):
+        nonlocal ok
+        ok = False
+        chk.violation("C20.R5", "fill_sample|" + what, "fill_sample: " + msg, f["span"]["file"], ln or f["span"]["lo"], f["q"], None, cfg)
+    n = 0
+    for p in cx.paths(cfg, f["path"]):
+        n += 1
+        if p.ret != ("param", 2, False):
+            bad("ret", "returns %s instead of the (extended) input vector" % fmt_val(p.ret)[:60])
+        evs = p.events
+        muts = [(i, e) for i, e in enumerate(evs) if e["ev"] == "call" and e["args"] and e["args"][0] == PAIRS and (e["q"] or "").split("::")[-1] not in ("len", "is_empty", "capacity", "iter", "as_slice")]
+        lens = {}
+        for i, e in enumerate(evs):
+            if e["ev"] == "call" and (e["q"] or "").endswith("Vec::len") and e["args"] and e["args"][0] == PAIRS:
+                lens[("call", e["id"], e["q"])] = i
+        tests = []   # (event index, truth of len >= samples)
+        for i, e in enumerate(evs):
+            if e["ev"] == "branch" and "outcome" in e and isinstance(e.get("cond"), tuple) and e["cond"][0] == "bin":
+                c = e["cond"]
+                o = e["outcome"]
+                t = ("0" in [str(x) for x in o[1]]) if isinstance(o, tuple) else str(o) not in ("0", "false")
+                for a, b, op in ((c[2], c[3], c[1]), (c[3], c[2], {"Lt": "Gt", "Gt": "Lt", "Le": "Ge", "Ge": "Le"}.get(c[1], c[1]))):
+                    if a in lens and b == SAMPLES and op in ("Ge", "Lt"):
+                        tests.append((i, lens[a], (op == "Ge") == t))
+        if not tests or tests[0][0] > (muts[0][0] if muts else len(evs)):
+            bad("no-initial-test", "the input is extended without first testing pairs.len() >= samples")
+            continue
+        if tests[0][2] and muts:
+            bad("mutates-when-full", "the input is modified although it already holds at least `samples` pairs", muts[0][1].get("ln"))
+        for k, (i, e) in enumerate(muts):
+            name = (e["q"] or "").split("::")[-1]
+            if name != "push":
+                bad("not-push", "the input is extended with Vec::%s: pairs must be appended one at a time with the length re-tested after each (an unbounded bulk append can exceed the sample size)" % name, e.get("ln"))
+                continue
+            item = e["args"][1]
+            src_ok = any(t[0] == "call" and "Iter" in (t[2] or "") and t[2].endswith("::next") for t in subterms(item))
+            if not src_ok:
+                bad("push-source", "a pushed pair (%s) is not read from the key_costs iterator" % fmt_val(item)[:60], e.get("ln"))
+            nxt = muts[k + 1][0] if k + 1 < len(muts) else len(evs)
+            after = [t for t in tests if i < t[1] and t[0] < nxt]
+            if not after:
+                bad("no-retest", "after pushing a pair the length is not re-tested against samples before the next push / the return", e.get("ln"))
+            elif after[0][2] and k + 1 < len(muts):
+                bad("push-after-full", "a pair is pushed after the sample size was reached", muts[k + 1][1].get("ln"))
+    if ok:
+        chk.ob("C20.R5", cfg + ":fill_sample", "%d paths: push-only, length re-tested after every push" % n)
